@@ -31,7 +31,11 @@ C04Problems(c) == (IF Hang(c) THEN {"hang"} ELSE {})
 \* (update requests may coalesce with a later request for the same id in one outgoing message: not compared)
 ToB(o) == { w \in ToSet(o.wire) : w[1] = "B" /\ w[2] # "update" }
 SameAsBaseline(c) == LET o == Obs(c) b == c.baseline IN
-   /\ o.closed = b.closed /\ o.st = b.st /\ (Count(o.errs, "client") = 0 => o.k = b.k) /\ ToB(o) = ToB(b)
+   /\ o.closed = b.closed /\ o.st = b.st
+   \* blocks delivered before a cancel / hook error reaches the executor is a race within the request itself
+   /\ ((\A kind \in {"client", "hook", "fatal"} : Count(o.errs, kind) = 0) => o.k = b.k)
+   \* a cancel replaces a not yet sent new request for the same id in the outgoing message: only the cancel is compared
+   /\ (<<"B", "cancel">> \in ToB(o)) = (<<"B", "cancel">> \in ToB(b))
    /\ \A kind \in TerminalKinds \cup {"missing"} : Count(o.errs, kind) = Count(b.errs, kind)
 C09Problems(c) == (IF "C" \in ToSet(Obs(c).hooks) THEN {"third-peer-response-reached-response-hook"} ELSE {})
    \cup (IF "C" \in ToSet(Obs(c).blockHookPeers) THEN {"third-peer-response-reached-block-hook"} ELSE {})
